@@ -201,6 +201,13 @@ func isModuleFn(fn *ssa.Function) bool {
 
 func (e *Exec) callFunction(st *State, fr *Frame, fn *ssa.Function, args []Value, bind []Value, pos token.Pos) []Outcome {
 	name := fn.String()
+	// call-site assertions of the function under verification
+	if fr.top && e.topSpec != nil && e.specMode == 0 && e.discovery == 0 {
+		for _, cl := range e.topSpec.AtCall[fn.Name()] {
+			t := e.evalSpec(st, fr, cl, func(n string, t types.Type) (Value, bool) { return e.topEnvLookup(st, fr, n, t) }, true)
+			e.obligeNamed(st, fmt.Sprintf("%s#at-call.%s.%s", e.curFn, fn.Name(), strings.Join(cl.Labels, ",")), "at-call", cl.Labels, "", t)
+		}
+	}
 	// primitives usable in spec functions and ghost accessors
 	if outs, ok := e.primitive(st, fr, fn, args, pos); ok {
 		return outs
@@ -461,6 +468,10 @@ func (e *Exec) primitive(st *State, fr *Frame, fn *ssa.Function, args []Value, p
 	case "prim_eqbytes":
 		a, b := args[0].(*SliceV), args[1].(*SliceV)
 		return one(st, e.sliceEq(st, a, b)), true
+	case "prim_held": // the mutex is held by the current thread of control (ghost lock-set)
+		p := args[0].(*PtrV)
+		l := e.locOf(p)
+		return one(st, st.LoadLoc(Loc{Key: l.Key + ".$held", Idx: l.Idx, T: types.Typ[types.Bool]}).(*Term)), true
 	case "prim_forall":
 		return one(st, e.primForall(st, fr, args[0].(*Term), args[1].(*FuncV))), true
 	case "prim_fresh": // the slice's backing array was allocated during the call
